@@ -8,6 +8,8 @@ use std::io::{BufRead, Write};
 
 mod p_config;
 mod sim;
+mod p_leaderq;
+mod p_cluster;
 mod p_engine;
 mod p_kv;
 mod p_smcrash;
@@ -36,6 +38,10 @@ fn dispatch(probe: &str, rt: &tokio::runtime::Runtime, case: Value) -> Value {
         "kv" => p_kv::run(rt, case),
         "codec" => p_engine::codec(rt, case),
         "multiget" => p_engine::multiget(rt, case),
+        "cluster" => p_cluster::run(rt, case),
+        "leaderq" => p_leaderq::run(rt, case),
+        "readroute" => p_leaderq::readroute(rt, case),
+        "readroute_embedded" => p_leaderq::readroute_embedded(rt, case),
         "majority" => p_buflog::majority(rt, case),
         _ => Value::String(format!("unknown probe {probe}")),
     }
